@@ -67,7 +67,14 @@ func decCfg(pd, su, lm string) (*ogorek.DecoderConfig, *hookLog) {
 }
 
 // decodeStream: successive Decode calls on one Decoder until io.EOF (or a panic).
-func decodeStream(r io.Reader, cfg *ogorek.DecoderConfig, limit int) (parts []string) {
+// Values are dumped only after the run so that allocation metering sees Decode alone.
+type decRes struct {
+	v   any
+	err error
+	tag string // "panic" / "NOPROGRESS" / ""
+}
+
+func decodeStream(r io.Reader, cfg *ogorek.DecoderConfig, limit int) (out []decRes) {
 	dec := ogorek.NewDecoderWithConfig(r, cfg)
 	for i := 0; i < limit; i++ {
 		var v any
@@ -82,20 +89,31 @@ func decodeStream(r io.Reader, cfg *ogorek.DecoderConfig, limit int) (parts []st
 			return false
 		}()
 		if panicked {
-			parts = append(parts, "panic")
+			out = append(out, decRes{tag: "panic"})
 			return
 		}
-		if err != nil {
-			parts = append(parts, "err "+ogorek.VerifErrClass(err))
-			if err == io.EOF {
-				return
-			}
-			continue
+		out = append(out, decRes{v: v, err: err})
+		if err == io.EOF {
+			return
 		}
-		parts = append(parts, "ok "+dumpVal(v))
 	}
-	parts = append(parts, "NOPROGRESS")
+	out = append(out, decRes{tag: "NOPROGRESS"})
 	return
+}
+
+func showDecRes(rs []decRes) string {
+	parts := make([]string, 0, len(rs))
+	for _, r := range rs {
+		switch {
+		case r.tag != "":
+			parts = append(parts, r.tag)
+		case r.err != nil:
+			parts = append(parts, "err "+ogorek.VerifErrClass(r.err))
+		default:
+			parts = append(parts, "ok "+dumpVal(r.v))
+		}
+	}
+	return strings.Join(parts, " | ")
 }
 
 func runDec(args []string) string {
@@ -109,18 +127,19 @@ func runDec(args []string) string {
 		}
 	}
 	cfg, h := decCfg(pd, su, lm)
-	var m0 runtime.MemStats
+	var m0, m1 runtime.MemStats
 	if *flagAlloc {
 		runtime.ReadMemStats(&m0)
 	}
-	parts := decodeStream(bytes.NewReader(data), cfg, len(data)+3)
-	out := strings.Join(parts, " | ")
+	rs := decodeStream(bytes.NewReader(data), cfg, len(data)+3)
+	if *flagAlloc {
+		runtime.ReadMemStats(&m1)
+	}
+	out := showDecRes(rs)
 	if h != nil {
 		out += " #log " + strings.Join(h.calls, " ; ")
 	}
 	if *flagAlloc {
-		var m1 runtime.MemStats
-		runtime.ReadMemStats(&m1)
 		out += fmt.Sprintf(" #alloc=%d", m1.TotalAlloc-m0.TotalAlloc)
 	}
 	return out
